@@ -156,6 +156,26 @@ def check_text(acc: Acc | None, text: str) -> list[dict]:
         if not isinstance(idx, int) or not (0 <= idx <= len(text)):
             vs.append(mk("C07:error-position-outside-text", text,
                          f"0 <= index <= {len(text)}", repr(mark)))
+        elif isinstance(getattr(mark, "line", None), int) and isinstance(getattr(mark, "column", None), int):
+            # the three coordinates of the position must name one and the same place in the text: (line, column) recomputed
+            # from the index with the YAML line breaks (LF, CR LF as one, CR, NEL, LS, PS)
+            line = col = 0
+            i = 0
+            while i < idx:
+                ch = text[i]
+                if ch == "\r" and i + 1 < len(text) and text[i + 1] == "\n":
+                    if i + 1 < idx:
+                        line, col = line + 1, 0
+                        i += 2
+                        continue
+                    col += 1
+                elif ch in "\n\r\x85\u2028\u2029":
+                    line, col = line + 1, 0
+                elif ch != "\ufeff":      # (a byte order mark has no width, as in PyYAML's marks)
+                    col += 1
+                i += 1
+            if (mark.line, mark.column) != (line, col):
+                vs.append(mk("C07:error-position-inconsistent", text, {"index": idx, "line": line, "column": col}, repr(mark)))
         if not isinstance(err.problem, str) or not str(err):
             vs.append(mk("C07:error-without-message", text, "message", repr(err.problem)))
     if kind == "inside":
